@@ -172,7 +172,10 @@ def closedStep (x : Sess) (toks : List String) : Step :=
     | some m, some capS, some magic, some k, some create, some fl, some reserved, some minseg =>
       let cap : Option (Option Nat) :=
         if capS == "same" then some (some x.opts.cap) else if capS == "none" then some none else capS.toNat?.map some
-      match cap with
+      -- optional `trunc=1`: the caller's Options carries `with_truncate(true)`. `map_in` clears the flag for the
+      -- read-only modes (modelled: no effect); the writable modes with it are not modelled (the harness refuses too)
+      let truncBad := (kvNat rest "trunc").getD 0 != 0 && !(mode == "ro" || mode == "copy_ro")
+      match (if truncBad then none else cap) with
       | none => { sess := some x, out := "bad-op" }
       | some cap =>
         let oo : OpenOpts := { sync := fl == "sync", kind := k, reserved := reserved, cap := cap, minSeg := minseg,
@@ -701,13 +704,8 @@ partial def advance (x : CS) (t : Thread) : CS :=
       let x := match o with
         | .alloc id (.ok _) _ false _ _ => { x with via := (id, t.tid) :: x.via }
         | _ => x
-      -- typed allocations: the harness reports the zero-filling over the final accessible range (for a recycled
-      -- segment the code zeroes the whole padded range, of which this is a part)
-      let pend := match o with
-        | .alloc _ (.ok (some m)) _ _ 2 _ =>
-          (t.pend.filter (fun l => !(l.splitOn "src=clear").length == 2)) ++
-            (if m.ptrSize != 0 then #[naStr t.tid 0 (.zero m.ptrOff m.ptrSize)] else #[])
-        | _ => t.pend
+      -- the harness reports the ranges the arena really zero-filled (Hook::zero); so does the step machine
+      let pend := t.pend
       let x := { x with out := (x.out ++ pend).push s!"res t={t.tid} i={t.idx} {txt}" }
       advance x { t with cur := none, idx := t.idx + 1, pend := #[] }
 
